@@ -25,6 +25,7 @@ def run(rep, tier, seed, b, prop_key=None, clause=None, gen=None, ident=None):
     tabs = E.tables_for(rng, 6 if tier == 'quick' else 30)
     smis = E.gen_smiles_cases(rng, n, **gen)
     smis += E.ring_symbol_cases(rng, 900 if tier == 'quick' else 20000)
+    smis += E.large_span_cases(rng, 9 if tier == 'quick' else 600)
     items = [(tabs[i % len(tabs)] if rng.random() < 0.5 else tabs[0], x, True, False) for i, x in enumerate(smis)]
     # the same spelling under a permissive table and then, in the same process, under tighter ones
     # (chunks are processed in order by one worker: a result carried over from the first call would show in the second)
